@@ -29,6 +29,7 @@ type HarnessSpec struct {
 	Labels   []string // zzAssert labels appearing in the source
 	Timeout  time.Duration
 	Tier     string // "" (both) | thorough
+	Stubs    []string
 }
 
 type PropertyPlan struct {
@@ -70,6 +71,8 @@ func parseSpecs(pkgDir string, src string) []HarnessSpec {
 				sp.BigW, _ = strconv.Atoi(p[1])
 			case "steps":
 				sp.MaxSteps, _ = strconv.Atoi(p[1])
+			case "stubs":
+				sp.Stubs = strings.Split(p[1], ",")
 			case "tier":
 				sp.Tier = p[1]
 			case "timeout":
@@ -161,6 +164,10 @@ func (c *Checker) newExec(sp HarnessSpec) *Exec {
 		Globals: c.Globals, globalObj: map[*ssa.Global]int{}, KnownIDs: c.KnownIDs,
 	}
 	ex.Base = NewState()
+	ex.StubSets = map[string]bool{}
+	for _, s := range sp.Stubs {
+		ex.StubSets[s] = true
+	}
 	return ex
 }
 
@@ -459,6 +466,9 @@ func summarize(r *HarnessResult, verbose bool) {
 	for _, o := range r.Obligations {
 		cnt[o.Verdict]++
 	}
+	if !verbose && cnt["sat"] == 0 && cnt["unknown"] == 0 && len(r.Aborts) == 0 && r.Broken == "" {
+		return
+	}
 	fmt.Printf("  %-44s mode=%-3s paths=%-4d obl=%-4d unsat=%d triv=%d sat=%d unk=%d aborts=%d exec=%.1fs solve=%.1fs %s\n",
 		r.Spec.Name, r.Spec.Mode, r.Paths, len(r.Obligations), cnt["unsat"], cnt["trivial"], cnt["sat"], cnt["unknown"], len(r.Aborts),
 		r.ExecTime.Seconds(), r.SolverTime.Seconds(), r.Broken)
@@ -665,7 +675,14 @@ func finish(plan *PropertyPlan, ws *Workspace, results []*HarnessResult, tier st
 		}
 		return 2
 	}
-	fmt.Printf("[%s] OK: all obligations discharged (%.1fs)\n", plan.ID, time.Since(t0).Seconds())
+	tp, to := 0, 0
+	for _, r := range results {
+		if r != nil {
+			tp += r.Paths
+			to += len(r.Obligations)
+		}
+	}
+	fmt.Printf("[%s] OK: %d harnesses, %d symbolic paths, %d obligations discharged, %d paths replayed natively (%.1fs)\n", plan.ID, len(results), tp, to, validated, time.Since(t0).Seconds())
 	return 0
 }
 
